@@ -793,8 +793,22 @@ func c10RunAll(dir string) func(cs []c10Scn) [][]Failure {
 	}
 }
 
+// a child that ends before its server is up (port taken between probing and binding) is started again; that is
+// the harness's problem, never a verdict
 func c10Child(dir string, gi int, batch []c10Scn) ([]c10Scn, string) {
-	wd := filepath.Join(dir, fmt.Sprintf("c10-%d", gi))
+	for attempt := 0; ; attempt++ {
+		res, died, started := c10ChildOnce(dir, gi, attempt, batch)
+		if died == "" || started {
+			return res, died
+		}
+		if attempt == 3 {
+			fatal("c10: the in-process server could not be started four times in a row: %s", died)
+		}
+	}
+}
+
+func c10ChildOnce(dir string, gi, attempt int, batch []c10Scn) ([]c10Scn, string, bool) {
+	wd := filepath.Join(dir, fmt.Sprintf("c10-%d-%d", gi, attempt))
 	os.MkdirAll(wd, 0o755)
 	in, out := filepath.Join(wd, "in.json"), filepath.Join(wd, "out.json")
 	b, _ := json.Marshal(batch)
@@ -830,7 +844,8 @@ func c10Child(dir string, gi int, batch []c10Scn) ([]c10Scn, string) {
 	if died == "" && len(res) < len(batch) {
 		died = "child ended without reporting every scenario; stderr: " + c10Trunc(sb.String(), 600)
 	}
-	return res, died
+	_, serr := os.Stat(out + ".started")
+	return res, died, serr == nil
 }
 
 func c10Trunc(s string, n int) string {
